@@ -1,6 +1,146 @@
-(* C04 — CDP custody, debt accounting and index coherence (placeholder, theorems follow). *)
-From Kava Require Import Base.Prelude Base.Dec Model.Cdp.
+(* C04 — CDP: collateral custody, stablecoin/debt accounting and indexes stay coherent.
+   Property theorems only; proofs are in Proofs/CdpInv.v and Proofs/Cdp.v.
 
+   [key_ok s]: every stored cdp record sits under its own (type, id).
+   [ridx_ok e s]: for every collateral type the ratio index has no duplicate and contains
+   (r, id) exactly when a cdp id of that type is stored and r is the (clipped)
+   collateral:debt ratio recomputed from the STORED record — "indexed exactly once under
+   its current collateral-to-debt ratio". *)
+From Kava Require Import Base.Prelude Base.Dec Model.Cdp Proofs.CdpRatio Proofs.Cdp Proofs.CdpInv Proofs.CdpInv2 Proofs.CdpInv3 Proofs.CdpCust.
+
+(** ** The ratio index along the code paths that rewrite it *)
+
+(* UpdateCdpAndCollateralRatioIndex (used by deposit, withdraw, draw, partial repay, interest
+   synchronisation and the keeper reward): removing the key recomputed from the stored record
+   and inserting the key of the new record keeps the index exact. *)
+Theorem C04_ratio_index_update :
+  forall e s cp c s' u, key_ok s -> ridx_ok e s -> get_cp e (c_type c) = Some cp ->
+  update_cdp e s cp c (cdp_ratio e cp c) = Ok s' u -> key_ok s' /\ ridx_ok e s'.
+Proof. exact update_cdp_idx. Qed.
+Print Assumptions C04_ratio_index_update.
+
+(* SynchronizeInterest (all four branches, including the ones that only rewrite FeesUpdated). *)
+Theorem C04_ratio_index_sync :
+  forall e s cp c s1 c1, key_ok s -> ridx_ok e s -> get_cp e (c_type c) = Some cp ->
+  cdps s (c_type c) (c_id c) = Some c -> sync_interest e s cp c = Ok s1 c1 ->
+  key_ok s1 /\ ridx_ok e s1 /\ cdps s1 (c_type c1) (c_id c1) = Some c1.
+Proof. exact sync_interest_idx. Qed.
+Print Assumptions C04_ratio_index_sync.
+
+(* SynchronizeInterestForRiskyCDPs — the bulk path of the begin blocker that deletes and sets the
+   index keys by hand instead of going through the keeper helpers — for any number of cdps. *)
+Theorem C04_ratio_index_bulk_sync :
+  forall e s t cp s' u, key_ok s -> ridx_ok e s -> get_cp e t = Some cp ->
+  sync_risky e s t cp = Ok s' u -> key_ok s' /\ ridx_ok e s'.
+Proof. exact sync_risky_idx. Qed.
+Print Assumptions C04_ratio_index_bulk_sync.
+
+(* Creation inserts, close and seizure remove exactly the cdp's entry. *)
+Theorem C04_ratio_index_insert :
+  forall e s cp c, key_ok s -> ridx_ok e s -> get_cp e (c_type c) = Some cp ->
+  (forall t, cdps s t (c_id c) = None) ->
+  let s' := ridx_ins (put_cdp s c) (c_type c) (cdp_ratio e cp c) (c_id c) in key_ok s' /\ ridx_ok e s'.
+Proof. exact insert_new_ok. Qed.
+Print Assumptions C04_ratio_index_insert.
+
+Theorem C04_ratio_index_remove :
+  forall e s cp c, key_ok s -> ridx_ok e s -> get_cp e (c_type c) = Some cp ->
+  cdps s (c_type c) (c_id c) = Some c ->
+  let s' := del_cdp (ridx_del s (c_type c) (cdp_ratio e cp c) (c_id c)) c in key_ok s' /\ ridx_ok e s'.
+Proof. exact remove_ok. Qed.
+Print Assumptions C04_ratio_index_remove.
+
+(* Whole operations and whole histories.  [IdxInv e s] = key_ok s /\ ridx_ok e s /\ no cdp is stored at or
+   above the next id.  Every operation keeps it: create, deposit (owner or third party), withdraw, draw,
+   repay (partial, exact, over-payment, including the close of a fully repaid cdp), keeper liquidation
+   (interest synchronisation, keeper reward, seizure) and the begin blocker (market status, interest
+   accumulation, the hand-written bulk synchronisation, the liquidation pass over several cdps, surplus
+   and debt auctions).  Hence, by induction over the operation list, every history of any length from a
+   state satisfying it (e.g. genesis) ends in a state satisfying it. *)
+Theorem C04_ratio_index_step :
+  forall e s o s' u, IdxInv e s -> step e s o = Ok s' u -> IdxInv e s'.
+Proof. exact step_IdxInv. Qed.
+Print Assumptions C04_ratio_index_step.
+
+Theorem C04_ratio_index_all_histories :
+  forall e ops s, IdxInv e s -> IdxInv e (run e s ops).
+Proof. exact run_IdxInv. Qed.
+Print Assumptions C04_ratio_index_all_histories.
+
+Theorem C04_genesis_IdxInv :
+  forall e bals sups prices status ifacs ptimes startid t h,
+  IdxInv e (mk_state bals sups prices status ifacs ptimes startid t h).
+Proof.
+  intros. destruct (init_idx_ok e bals sups prices status ifacs ptimes startid t h) as [A B].
+  split; [exact A|split; [exact B|]]. intros t0 id c H. cbn in H. discriminate.
+Qed.
+Print Assumptions C04_genesis_IdxInv.
+
+(** ** Custody: module balance = recorded collateral, cdp collateral = sum of its deposits, no orphan deposit *)
+(* [CustInv e s] (Proofs/CdpCust.v):
+   - every stored cdp's collateral equals the sum of its deposits, its type is a configured collateral
+     type and its id is below the next id;
+   - a cdp id is used by one collateral type only;
+   - every deposit record is non-negative, belongs to one of the users and to a stored cdp;
+   - for every collateral denom the cdp module account holds exactly custody' = the sum of the
+     collateral of all stored cdps of the types with that denom (hence, with the first two items,
+     exactly the sum of all recorded deposits of that collateral).
+   [env_wf]: the stable and the debt denom are not collateral denoms; [params_ok]: keeper reward
+   percentages are not negative (both enforced by the parameter validation of the module).
+   Every operation — create, deposit, withdraw, draw, repay incl. close, keeper liquidation, begin
+   blocker with interest accumulation, bulk synchronisation, liquidation pass and auctions — keeps
+   IdxInv /\ CustInv; hence every history of any length does. *)
+Theorem C04_custody_step :
+  forall e s o s' u, env_wf e -> params_ok e -> Inv2 e s -> step e s o = Ok s' u -> Inv2 e s'.
+Proof. exact step_Inv2. Qed.
+Print Assumptions C04_custody_step.
+
+Theorem C04_custody_all_histories :
+  forall e ops, env_wf e -> params_ok e -> forall s, Inv2 e s -> Inv2 e (run e s ops).
+Proof. exact run_Inv2. Qed.
+Print Assumptions C04_custody_all_histories.
+
+(* genesis (no cdps, the module account holds no collateral) satisfies the custody invariant *)
+Theorem C04_genesis_custody :
+  forall e bals sups prices status ifacs ptimes startid t h,
+  (forall t0 cp, get_cp e t0 = Some cp -> nthZ (nth (CDPM e) bals []) (cp_denom cp) = 0) ->
+  CustInv e (mk_state bals sups prices status ifacs ptimes startid t h).
+Proof. exact init_CustInv. Qed.
+Print Assumptions C04_genesis_custody.
+
+(** ** Closing returns to every depositor exactly what they deposited *)
+(* ReturnCollateral: each depositor's balance of the collateral denom grows by exactly the recorded
+   deposit, nothing else moves, the module account pays exactly the sum of the deposits, the
+   deposit records of the cdp are deleted and no other deposit is touched. *)
+Theorem C04_close_returns_deposits :
+  forall e s cp c s' u, return_collateral e s cp c = Ok s' u ->
+  (forall w a, deps s (c_id c) w = Some a -> 0 <= a) ->
+  cdps s' = cdps s /\ oidx s' = oidx s /\ ridx s' = ridx s /\ sup s' = sup s /\
+  (forall w, (w < nusers e)%nat ->
+     bal s' w (cp_denom cp) = bal s w (cp_denom cp) + oz0 (deps s (c_id c) w) /\ deps s' (c_id c) w = None) /\
+  (forall w d, (w < nusers e)%nat -> d <> cp_denom cp -> bal s' w d = bal s w d) /\
+  bal s' (CDPM e) (cp_denom cp) = bal s (CDPM e) (cp_denom cp) - dep_total e s (c_id c) /\
+  (forall i w, i <> c_id c -> deps s' i w = deps s i w).
+Proof. exact return_collateral_spec. Qed.
+Print Assumptions C04_close_returns_deposits.
+
+(** ** Seizure hands over exactly the deposits and removes the position (custody side of C05_seizure_whole) *)
+Theorem C04_seizure_removes_position :
+  forall e s cp c s' u, seize e s cp c = Ok s' u ->
+  (forall w a, deps s (c_id c) w = Some a -> 0 <= a) -> 0 < cp_asize cp ->
+  0 <= cdp_debt c -> 0 <= bal s (CDPM e) (d_debt e) ->
+  cdps s' = upd2 (cdps s) (c_type c) (c_id c) None /\
+  (forall w, (w < nusers e)%nat -> deps s' (c_id c) w = None) /\
+  (forall i w, i <> c_id c -> deps s' i w = deps s i w) /\
+  oidx s' = upd (oidx s) (c_owner c) (filter (fun x => negb (Nat.eqb x (c_id c))) (oidx s (c_owner c))) /\
+  ridx s' = upd (ridx s) (c_type c) (ent_del (rkey (cdp_ratio e cp c), c_id c) (ridx s (c_type c))).
+Proof.
+  intros e s cp c s' u H H1 H2 H3 H4.
+  destruct (seize_spec _ _ _ _ _ _ H H1 H2 H3 H4) as (A & B & C & D & E & _). auto.
+Qed.
+Print Assumptions C04_seizure_removes_position.
+
+(** ** Failed operations change nothing *)
 Theorem C04_failed_changes_nothing :
   forall e s o, (forall s' u, step e s o <> Ok s' u) -> step' e s o = s.
 Proof.
@@ -8,3 +148,47 @@ Proof.
   exfalso. exact (H s' u eq_refl).
 Qed.
 Print Assumptions C04_failed_changes_nothing.
+
+(** ** Non-vacuity *)
+(* the genesis state satisfies the index invariants *)
+Theorem C04_genesis_indexes_ok :
+  forall e bals sups prices status ifacs ptimes startid t h,
+  let s := mk_state bals sups prices status ifacs ptimes startid t h in key_ok s /\ ridx_ok e s.
+Proof. exact init_idx_ok. Qed.
+Print Assumptions C04_genesis_indexes_ok.
+
+(* a history with creation, third-party deposit, partial repay, interest over a day, draw, withdrawal and a close that
+   returns two deposits: the boolean invariant (custody, cdp collateral = deposits, both indexes, debt
+   accounting) holds at the end, the cdp is gone and the third party got its deposit back *)
+Definition x_env : env :=
+  mkEnv 4 5 4 [mkCP 0 1500000000000000000 100000000000000 1000000001547125958 10000000 50000000000000000 0 1 10000000000000000 10 8;
+               mkCP 0 2000000000000000000 100000000000000 1000000051034942716 10000000 50000000000000000 0 1 10000000000000000 10 8;
+               mkCP 4 1500000000000000000 100000000000000 1000000001547125958 10000000 50000000000000000 2 3 10000000000000000 10 6]
+        3 1 2 6 1 400000000000000 500000000000 10000000000 100000000000 10000000000 1.
+Definition x_s0 : state :=
+  mk_state [[100000000000000; 0; 1000000000; 2000000000000; 100000000000000]; [100000000000000; 0; 1000000000; 2000000000000; 100000000000000];
+            [100000000000000; 0; 1000000000; 2000000000000; 100000000000000]; [100000000000000; 0; 1000000000; 2000000000000; 100000000000000];
+            [0; 0; 0; 0; 0]; [0; 0; 0; 0; 0]; [0; 0; 0; 0; 0]]
+           [400000000000000; 0; 100004001000000; 8000000000000; 400000000000000]
+           [17250000000000000000; 17250000000000000000; 500000000000000000; 500000000000000000] [true; true; true; true]
+           [1000000000000000000; 1000000000000000000; 1000000000000000000]
+           [1704067200000000000; 1704067200000000000; 1704067200000000000] 1 1704067200000000000 1.
+Example C04_env_hypotheses_satisfiable : env_wf x_env /\ params_ok x_env /\ Inv2 x_env x_s0.
+Proof.
+  assert (G : forall t cp, get_cp x_env t = Some cp -> (cp_denom cp = 0%nat \/ cp_denom cp = 4%nat) /\ 0 <= cp_reward cp).
+  { intros t cp H. destruct t as [|[|[|t]]]; cbn in H; try (inversion H; subst; cbn; split; [auto|lia]). destruct t; discriminate. }
+  split; [|split; [|split]].
+  - intros t cp H. destruct (G t cp H) as [[D|D] _]; rewrite D; cbn; split; discriminate.
+  - intros t cp H. apply (G t cp H).
+  - apply C04_genesis_IdxInv.
+  - apply C04_genesis_custody. intros t cp H. destruct (G t cp H) as [[D|D] _]; rewrite D; reflexivity.
+Qed.
+
+Example C04_nonvacuous :
+  let s1 := run x_env x_s0 [Create 0 2 4 60000000 3 10000000; Deposit 0 1 2 4 7000000; Repay 0 2 3 4000000;
+                            Block 86400000000000 []; Draw 0 2 3 1000; Withdraw 0 0 2 4 1000000] in
+  let s2 := step' x_env s1 (Repay 0 2 3 900000000) in
+  inv_b x_env 8000000000000 s1 = true /\ inv_b x_env 8000000000000 s2 = true /\
+  (match cdps s1 2 1 with Some c => 0 <? c_fees c | None => false end) = true /\
+  cdps s2 2 1 = None /\ bal s2 1 4 = bal x_s0 1 4 /\ bal s2 0 4 = bal x_s0 0 4.
+Proof. vm_compute. repeat split; reflexivity. Qed.
